@@ -394,7 +394,11 @@ def block_tables(facts, body, heads, targets):
 
 def check_blocks(facts, chk):
     def go():
-        b = facts.fn('ska_dict::SkaDict::add_file_kmers')
+        # private helpers wrapping the two insert routines are inlined (MIR level), so that moving the
+        # `if palindrome { add_palindrome_to_dict } else { add_to_dict }` choice into a helper keeps the anchors
+        from ..facts import fn_with_helpers
+        b = fn_with_helpers(facts, 'ska_dict::SkaDict::add_file_kmers',
+                            lambda c: (c.name or '').endswith(('::add_palindrome_to_dict', '::add_to_dict')))
         ap = [bb for bb, t in b.calls() if (t.callee.name or '').endswith('::add_palindrome_to_dict')]
         ad = [bb for bb, t in b.calls() if (t.callee.name or '').endswith('::add_to_dict')]
         nk = [bb for bb, t in b.calls() if (t.callee.name or '').endswith('::get_next_kmer')]
